@@ -79,8 +79,16 @@ pub fn gen_expr(r: &mut Rng, params: &[(String, f64)], depth: usize) -> (String,
                     };
                     (format!("{f}({a})"), v)
                 }
-                7 => (format!("({a}) - {b} - 1"), va - vb - 1.0),
-                _ => (format!("{a}*{b}"), va * vb),
+                7 => {
+                    // left-associativity without parentheses: operands are atoms
+                    let (b0, vb0) = gen_expr(r, params, 0);
+                    (format!("({a}) - {b0} - 1"), va - vb0 - 1.0)
+                }
+                _ => {
+                    let (a0, va0) = gen_expr(r, params, 0);
+                    let (b0, vb0) = gen_expr(r, params, 0);
+                    (format!("{a0}*{b0}"), va0 * vb0)
+                }
             };
             if v.is_finite() && v.abs() < 1e6 {
                 return (s, v);
